@@ -64,7 +64,10 @@ TStep ==
     /\ LET pd1 == pubd \/ E.e = "NodePub"
            \* a free choice of the node is resolved by what it did: after a reset of its outbound stream it either
            \* respawned the writer (a queue exists again) or had used up the peer's backoff attempts
-           resp == "pubsub.peers" \in SeqSet(E.keys[E.p])
+           \* (only where the model cannot know: the attempts a disconnect race may have used up)
+           resp == IF ps[E.p].attHi < MaxRespawns THEN TRUE
+                   ELSE IF ps[E.p].attLo >= MaxRespawns THEN FALSE
+                   ELSE "pubsub.peers" \in SeqSet(E.keys[E.p])
            a1  == CASE E.e = "OutReset" -> [ps EXCEPT ![E.p] = OutResetEv(@, resp)]
                     [] E.e \in PeerEvents -> [ps EXCEPT ![E.p] = PeerEv(@, E.e, E.k)]
                     [] E.e \in GlobalEvents \cup {"Elapse"} -> [p \in Peers |-> GlobalEv(ps[p], E.e, pd1)]
